@@ -577,12 +577,17 @@ fn lossy_per_line_utf8(bytes: &[u8]) -> String {
 
 fn rel_c10(s: &mut Summary, rng: &mut Rng, name: &str, text: &str, thorough: bool) {
     // (a) the same text in four encodings (with hostile characters injected into a metadata line)
-    let hostile: [char; 12] = ['\u{4E0A}', '\u{0A41}', '\u{0A0A}', '\u{010A}', '\u{0A00}', '\u{FEFF}', '\u{E9}', '\u{1F600}', '\u{FFFD}', '\u{2028}', '\u{85}', '\u{A0}'];
+    let hostile: [char; 15] = ['\u{4E0A}', '\u{0A41}', '\u{0A0A}', '\u{010A}', '\u{0A00}', '\u{FEFF}', '\u{E9}', '\u{1F600}', '\u{FFFD}', '\u{2028}', '\u{85}', '\u{A0}',
+                               '\u{0100}', '\u{0A05}', '\u{050A}'];
     let mut texts: Vec<String> = vec![text.to_string()];
     for _ in 0..(if thorough { 6 } else { 2 }) {
         let mut t = String::from("osu file format v14\n\n[Metadata]\nTitle:x");
         for _ in 0..(1 + rng.below(4)) {
             t.push(*rng.pick(&hostile));
+            // hostile characters next to each other (bytes meeting across a unit boundary) and next to ASCII
+            if rng.chance(1, 2) {
+                t.push(*rng.pick(&hostile));
+            }
             t.push('y');
         }
         t.push_str("\nArtist:");
